@@ -19,7 +19,7 @@
                            the record-type character of its place in the tree *)
 From Coq Require Import String List NArith ZArith Bool.
 From ACH Require Import Arith.
-From ACH Require Import ReaderValid WrittenCountsFacts ReaderWidth ReaderWidthFacts.
+From ACH Require Import ReaderValid WrittenCountsFacts DispatchBytes ReaderWidth ReaderWidthFacts.
 From ACH Require Import Layouts RecRules Tables C01Obl C01FileEx C01FileObl C01ValidObl C02ValidObl C02ReaderObl.
 Import ListNotations.
 Local Open Scope string_scope.
@@ -82,6 +82,21 @@ Theorem C02_reader_physical_counts : forall text f clk,
 Proof. exact c02_reader_physical_counts. Qed.
 Print Assumptions C02_reader_physical_counts.
 
+(* no written record holds a CR or LF (so the physical lines of the written text ARE these records, and the
+   94 characters are a statement about the text); the hypothesis rec_no_nl of C01_valid_text_roundtrip holds of
+   reader-produced trees.  Needs neither validity nor width: Parse assigns substrings of a line the framing cut at
+   every CR / LF, String() adds blanks, zeros, digits and literals *)
+Theorem C02_reader_no_line_break : forall text f clk,
+  read_text_valid LT RT AT text = Some (f, false) -> wf_utf8 clk = true -> no_nl clk = true ->
+  forallb no_nl (write_file_padded LT (stamp clk f)) = true /\ all_file (rec_no_nl LT) (stamp clk f) = true.
+Proof. exact c02_reader_no_line_break. Qed.
+Print Assumptions C02_reader_no_line_break.
+
+Theorem C02_reader_lines_no_break : forall text ls, norm_lines (read_lines text) = Some ls ->
+  Forall (fun l => wf_utf8 l = true /\ no_nl l = true) ls.
+Proof. exact c02_reader_lines_no_break. Qed.
+Print Assumptions C02_reader_lines_no_break.
+
 (* after the framing: lines of valid UTF-8 (any lines, not only those [read_lines] yields) *)
 Theorem C02_reader_domain_lines : forall ls f clk,
   Forall (fun l => wf_utf8 l = true) ls -> read_file_valid LT RT AT ls = Some (f, false) ->
@@ -125,8 +140,8 @@ Print Assumptions C02_parsed_record_line.
    types the reader constructs sit where the writer expects them; no rule of the file header reads the creation time *)
 Theorem C02_parsed_columns_checked :
   forallb (parse_fills all_rules) all_layouts = true /\ reader_kinds_ok all_layouts = true
-  /\ rules_skip (rules_of L_FileHeader) TIME = true.
-Proof. exact (conj parse_fills_checked (conj reader_kinds_checked header_rules_skip_time)). Qed.
+  /\ rules_skip (rules_of L_FileHeader) TIME = true /\ forallb lits_no_nl all_layouts = true.
+Proof. exact (conj parse_fills_checked (conj reader_kinds_checked (conj header_rules_skip_time lits_no_nl_checked))). Qed.
 
 Theorem C02_parsed_columns :
   map (fun L => (l_name L, map (fun x => (seg_name (cs_seg x), fill_reason (rules_of L) L x)) (unbounded_in all_rules L))) partial_layouts =
